@@ -21,7 +21,10 @@ var (
 )
 
 func genTransform(r *wire.Rng) Transform {
-	t := Transform{Multi: r.Chance(60, 100), Gate: r.Chance(35, 100)}
+	t := Transform{Multi: r.Chance(55, 100), Gate: r.Chance(35, 100)}
+	if !t.Multi && r.Chance(35, 100) {
+		t.ByVal = true
+	}
 	nf := 1
 	switch x := r.Intn(100); {
 	case x < 15:
@@ -143,30 +146,24 @@ func (g *caseGen) secKeys() []string {
 	return ks
 }
 
-// safeOuts removes from o.Outs every key whose claim would be an unsafe move.
+// claimConflict: would input p claiming k be an unsafe move (or a second current claimant)?
+func (g *caseGen) claimConflict(p, k string) bool {
+	if g.started && g.d.claimedByOther(p, k) {
+		return true
+	}
+	for q, other := range g.d.prim { // never two current claimants (also before start)
+		if q != p && contains(claims(g.t, other), k) {
+			return true
+		}
+	}
+	return false
+}
+
+// safeOuts makes the claims of o safe: unsafe output keys are dropped (one-to-many); for the one-to-one
+// shape keyed by the value another value is chosen.
 func (g *caseGen) safeOuts(o Obj) Obj {
-	if !g.t.Multi {
-		return o
-	}
 	p := o.ResourceName()
-	var keep []string
-	for _, k := range o.Outs {
-		conflict := false
-		if g.started {
-			conflict = g.d.claimedByOther(p, k)
-		}
-		// never two current claimants (also before start)
-		for q, other := range g.d.prim {
-			if q != p && contains(other.Outs, k) {
-				conflict = true
-			}
-		}
-		if !conflict {
-			keep = append(keep, k)
-		}
-	}
-	o.Outs = keep
-	return o
+	return keepClaims(g.t, o, func(k string) bool { return !g.claimConflict(p, k) })
 }
 
 func (g *caseGen) pset(o Obj) {
@@ -213,6 +210,10 @@ func (g *caseGen) queries() {
 	var keys []string
 	if g.t.Multi {
 		keys = outKeys
+	} else if g.t.ByVal {
+		for _, v := range bigVals {
+			keys = append(keys, "val/"+v)
+		}
 	} else {
 		for _, ns := range nss {
 			for _, n := range pnames {
@@ -286,7 +287,7 @@ func (g *caseGen) addSub(kind string) {
 // owner returns the current parent of key k (multi only).
 func (g *caseGen) owner(k string) (string, bool) {
 	for _, p := range g.primKeys() {
-		if contains(g.d.prim[p].Outs, k) {
+		if contains(claims(g.t, g.d.prim[p]), k) {
 			return p, true
 		}
 	}
@@ -303,12 +304,41 @@ func without(l []string, x string) []string {
 	return out
 }
 
+// withDuplicate: the same key twice in one Reset (krt/files.NewFileCollection does not deduplicate what it
+// read): an earlier occurrence with another payload and the same claims, which the later one replaces.
+func withDuplicate(r *wire.Rng, toks []string, keepVal, newOuts bool) []string {
+	if len(toks) < 2 || !r.Chance(25, 100) {
+		return toks
+	}
+	j := 1 + r.Intn(len(toks)-1)
+	o, ok := parseObj(toks[j])
+	if !ok {
+		return toks
+	}
+	if r.Chance(75, 100) { // otherwise the very same object twice
+		o.Labels = genLabels(r, 60)
+		if !keepVal {
+			o.Val = wire.Pick(r, vals)
+		}
+		if newOuts { // other index keys (idxc): the entries of the replaced occurrence must go away
+			o.Outs = genObj(r, pnames).Outs
+		}
+	}
+	i := 1 + r.Intn(j)
+	out := append([]string{}, toks[:i]...)
+	out = append(out, o.Token())
+	return append(out, toks[i:]...)
+}
+
 // moveKey moves one output key from its parent to another input.
 func (g *caseGen) moveKey() {
-	if !g.t.Multi || len(g.d.prim) == 0 {
+	if !(g.t.Multi || g.t.ByVal) || len(g.d.prim) == 0 {
 		return
 	}
 	k := wire.Pick(g.r, outKeys)
+	if g.t.ByVal { // a key some input holds now
+		k = claims(g.t, g.d.prim[wire.Pick(g.r, g.primKeys())])[0]
+	}
 	oldP, ok := g.owner(k)
 	if !ok {
 		return
@@ -328,9 +358,14 @@ func (g *caseGen) moveKey() {
 			np = cur
 		}
 	}
-	np.Outs = append(append([]string{}, np.Outs...), k)
 	oldNew := old
-	oldNew.Outs = without(old.Outs, k)
+	if g.t.ByVal {
+		np.Val = strings.TrimPrefix(k, "val/")
+		oldNew.Val = "rel-" + strings.ReplaceAll(oldP, "/", "-") // the old parent moves to a value of its own
+	} else {
+		np.Outs = append(append([]string{}, np.Outs...), k)
+		oldNew.Outs = without(old.Outs, k)
+	}
 	if !g.f6 {
 		// disciplined: old parent drops the key, barrier, new parent takes it
 		if g.r.Chance(30, 100) {
@@ -466,14 +501,18 @@ func (g *caseGen) op() {
 			if r.Chance(70, 100) {
 				o := g.d.prim[p]
 				if r.Chance(50, 100) {
-					o.Val = wire.Pick(r, vals)
+					if g.t.ByVal { // keyed by the value: the claim stays
+						o.Labels = genLabels(r, 60)
+					} else {
+						o.Val = wire.Pick(r, vals)
+					}
 				}
 				objs = append(objs, o)
 				toks = append(toks, o.Token())
 			}
 		}
 		g.d.primReset(objs)
-		g.emit(toks...)
+		g.emit(withDuplicate(r, toks, g.t.ByVal, false)...)
 	case x < 92 && g.secmode == "sj": // changes of the second joined collection instead of a Reset
 		if ks := g.sec2Keys(); len(ks) > 0 && r.Chance(35, 100) {
 			k := wire.Pick(r, ks)
@@ -504,7 +543,7 @@ func (g *caseGen) op() {
 			}
 		}
 		g.sec = ns
-		g.emit(toks...)
+		g.emit(withDuplicate(r, toks, false, false)...)
 	case x < 95:
 		g.addSub(wire.Pick(r, []string{"single", "batch", "batch", "nostate"}))
 	case x < 97:
@@ -541,8 +580,9 @@ func (g *caseGen) sec2Keys() []string {
 func genCase(r *wire.Rng, n int, stream string, w *wire.Out) {
 	g := &caseGen{r: r, t: genTransform(r), f6: stream == "krtf6", sec: map[string]Obj{}, sec2: map[string]Obj{},
 		touched: map[string]int{}}
-	if g.f6 {
-		g.t.Multi = true
+	if g.f6 && !g.t.Multi && !g.t.ByVal { // keys must be able to move between parents
+		g.t.Multi = r.Chance(70, 100)
+		g.t.ByVal = !g.t.Multi
 	}
 	g.d = newDisc(g.t, g.f6)
 	head := []string{"case", fmt.Sprint(n), stream, g.t.Token()}
@@ -566,7 +606,7 @@ func genCase(r *wire.Rng, n int, stream string, w *wire.Out) {
 	}
 	single1 := !g.f6 && r.Chance(8, 100)
 	if single1 {
-		g.t.Multi = false
+		g.t.Multi, g.t.ByVal = false, false
 		head[3] = g.t.Token()
 		head = append(head, "single1")
 		g.single1 = true
